@@ -201,9 +201,9 @@ func runHistory(t *testing.T, r *ev.Run, seed int64, p Params) (failed bool) {
 		if rng.Intn(2) == 0 {
 			impl = "protectedmemory"
 		}
-		// two histories in five run over a real DynamoDB metastore plug-in (v1 / v2 client) on the semantic fake; the
+		// half of the histories run over a real metastore plug-in (DynamoDB v1 / v2 client on the semantic fake, SQL on the mini SQL engine); the
 		// choice comes from a generator of its own so that it does not shift the history drawn from rng
-		backend := []string{"memory", "memory", "memory", "dynamodb-v1", "dynamodb-v2"}[rand.New(rand.NewSource(seed^0xbac)).Intn(5)]
+		backend := []string{"memory", "memory", "memory", "dynamodb-v1", "dynamodb-v2", "sql"}[rand.New(rand.NewSource(seed^0xbac)).Intn(6)]
 		h.w = world.NewOn(impl, backend)
 		h.r.Count("histories_on_"+backend, 1)
 		h.w.MS.WhoFn = func() string { return h.scope }
